@@ -21,7 +21,7 @@ BATCH = 4
 TIMEOUT = 120
 USES_LAB = False
 REQUIRED_OBS = ["names_checked", "adjacent_pairs_checked", "garbage_names_checked", "cfg_default", "cfg_upper_replace", "cfg_custom_symbols", "cfg_upper_G_prefix",
-                "cfg_elements_only", "configured_tables_unchanged"]
+                "cfg_elements_only", "cfg_explicit_default_lists", "configured_tables_unchanged"]
 RULE = ("names rendered from compositions: all ordered pairs of adjacent symbols of the active list with counts 1/2/10+, random "
         "2-4 element formulas, ortho/para/meta and c-/l-/* labels, surface prefixes with group digits, grain symbols with "
         "groups, charges -3..+4, under (a) the default lists, (b) the upper-case list with replacement of the bundled cloud "
@@ -47,6 +47,10 @@ CONFIGS = {
     # occurs inside element symbols (MG), so symbol-vs-prefix precedence matters
     "upper_G_prefix": dict(elements=UPPER, pseudo=UPPER_PSEUDO + ["M"], repl=UPPER_REPL, kwargs=dict(surface_prefix="G"), prefix="G",
                            grain="GRAIN", syms=[e for e in UPPER if e != "E"], labels=[], pre_labels=[], post_labels=[]),
+    # the default lists given EXPLICITLY, as `naunet init` writes them into the configuration (the `*` label pre-escaped as a regex: \\*)
+    "explicit_default_lists": dict(elements=list(chem.DEFAULT_ELEMENTS), pseudo=["CR", "CRP", "XRAY", "Photon", "PHOTON", "CRPHOT", "X", "M", "p", "o", "m", "c-", "l-", "\\*", "g"],
+                                   repl={}, kwargs={}, prefix="#", grain="GRAIN", syms=[e for e in chem.DEFAULT_ELEMENTS if e not in ("e", "E")],
+                                   labels=["o", "p", "m"], pre_labels=["c-", "l-"], post_labels=["*"], tokenizer_pseudo=list(chem.DEFAULT_PSEUDO)),
     # an element list and NO pseudo elements (the bundled 'minimal' example's configuration): the short list is the whole
     # vocabulary, names that only the default tables know must be rejected
     "elements_only": dict(elements=["e", "H", "D", "C", "O", "S"], pseudo=[], repl={}, kwargs={}, prefix="#", grain="GRAIN",
@@ -88,7 +92,7 @@ def expected(cfg, sp):
 
 def tokenizes_back(cfg, sp):
     """independent L2R longest-match over all configured symbols must give the same reading"""
-    symbols = list(cfg["elements"] or chem.DEFAULT_ELEMENTS) + list(cfg["pseudo"] if cfg["pseudo"] is not None else chem.DEFAULT_PSEUDO)
+    symbols = list(cfg["elements"] or chem.DEFAULT_ELEMENTS) + list(cfg.get("tokenizer_pseudo") or (cfg["pseudo"] if cfg["pseudo"] is not None else chem.DEFAULT_PSEUDO))
     core = "".join(sp["pre"]) + "".join(s + (str(n) if n != 1 else "") for s, n in sp["parts"]) + "".join(sp["post"])
     toks = chem.tokenize(core, symbols + [cfg["prefix"], cfg["grain"]])
     if toks is None:
